@@ -28,7 +28,7 @@ RULE = (
     "entities, entities with empty replacement text or an empty system literal, external DTD subset only, internal subset "
     "without entities, no DOCTYPE; an external identifier in front of an internal subset; 0..300000 characters of comment / PI / "
     "white space in front of the DOCTYPE and inside the internal subset; entity referenced in element text / "
-    "attribute or merely declared; str and bytes handles, UTF-8 with/without BOM and UTF-16. Entry points OVF(fh), VBox(fh), "
+    "attribute or merely declared; str and bytes handles, UTF-8 with/without BOM and UTF-16, real files opened by the caller in text or binary mode, text whose XML declaration names another encoding. Entry points OVF(fh), VBox(fh), "
     "PVS(fh), HDD(dir) / hdd.Descriptor(path). Oracles: (1) a document that declares an entity makes the constructor raise; "
     "(2) for every document no audit event opens the canary or touches socket/urllib and the canary content appears in no "
     "parsed value; (3) CPU <= 2 s and tracemalloc peak <= 16 MiB + 8 x document size; (4) documents without entity "
@@ -38,7 +38,6 @@ RULE = (
 ASSUMPTIONS = [
     "a DOCTYPE without entity declarations (external subset reference, ELEMENT/ATTLIST declarations) is a document 'without entity "
     "declarations' and must parse as usual",
-    "UTF-16 DiskDescriptor.xml files are refused by the reader's text decoding; refusal is acceptable for hostile documents",
 ]
 
 ENTRY = ["ovf", "vbox", "pvs", "hdd"]
@@ -97,7 +96,9 @@ def hostile_spec(draw, tier):
         "subset_lead": draw(st.sampled_from(LEADS)),
         # an external identifier on a DOCTYPE that also has an internal subset
         "extid": draw(st.sampled_from([None, None, "SYSTEM", "PUBLIC"])),
-        "handle": draw(st.sampled_from(["str", "str", "bytes-utf8", "bytes-utf8-bom", "bytes-utf16"])),
+        "handle": draw(st.sampled_from(["str", "str", "bytes-utf8", "bytes-utf8-bom", "bytes-utf16", "file-text", "file-bytes"])),
+        # what the XML declaration of a document handed over as *text* says about its (former) byte encoding: irrelevant for text
+        "decl_encoding": draw(st.sampled_from([None, None, None, "ISO-8859-1", "UTF-16", "windows-1252", "US-ASCII"])),
         "alt_ns": draw(st.sampled_from([None, None, None, "http://www.innotek.de/VirtualBox-settings", "urn:example:other"])),
         "trailer": draw(st.sampled_from(["", "", "<!-- trailing comment -->", "<?pi data?>", "\n\n<!-- a --><!-- b -->\n"])),
         "benign_first": draw(st.booleans()),
@@ -230,9 +231,9 @@ def _with_marker(b, use):
 
 
 def encode(text, handle):
-    if handle == "str":
+    if handle in ("str", "file-text"):
         return text
-    if handle == "bytes-utf8":
+    if handle in ("bytes-utf8", "file-bytes"):
         return text.encode("utf-8")
     if handle == "bytes-utf8-bom":
         return b"\xef\xbb\xbf" + text.encode("utf-8")
@@ -259,6 +260,9 @@ def check(spec) -> Outcome:
     handle = spec["handle"] if entry != "hdd" else "file"
     out.cls(entry, "prolog-" + spec["prolog"], "handle-" + handle, "declares-entity" if declares else "no-entity")
     out.nontrivial = declares
+    if spec.get("decl_encoding") and entry != "hdd" and spec["handle"] == "str":
+        text = text.replace('encoding="UTF-8"', f'encoding="{spec["decl_encoding"]}"', 1).replace("encoding='UTF-8'", f"encoding='{spec['decl_encoding']}'", 1)
+        out.cls("str-with-foreign-encoding-declaration")
     payload = encode(text, spec["handle"]) if entry != "hdd" else text
 
     def run():
@@ -282,6 +286,19 @@ def check(spec) -> Outcome:
                     f.write(data)
                 h = HDD(Path(root))
                 return h.descriptor.xml, [im.file for s in h.descriptor.storage_data.storages for im in s.images]
+            finally:
+                shutil.rmtree(d, ignore_errors=True)
+        if spec["handle"].startswith("file-"):
+            # a real file on disk, opened by the caller in text or binary mode (the handle has a .name)
+            d = tempfile.mkdtemp(prefix="xf-", dir=_STATE["dir"])
+            try:
+                pth = os.path.join(d, {"ovf": "vm.ovf", "vbox": "vm.vbox"}.get(entry, "config.pvs"))
+                with open(pth, "wb") as f:
+                    f.write(payload.encode("utf-8") if isinstance(payload, str) else payload)
+                with (open(pth, encoding="utf-8") if spec["handle"] == "file-text" else open(pth, "rb")) as fh:
+                    obj = _parse(entry, fh)
+                    xml = getattr(obj, "xml", None) or getattr(obj, "_xml", None)
+                    return xml, list(obj.disks())
             finally:
                 shutil.rmtree(d, ignore_errors=True)
         fh = io.StringIO(payload) if isinstance(payload, str) else io.BytesIO(payload)
@@ -317,8 +334,6 @@ def check(spec) -> Outcome:
                      f"document declaring an entity ({spec['prolog']}, handle {handle}) was accepted; disks={disks[:3]}")
         return out
     # benign document: must parse as usual
-    if entry == "hdd" and spec["handle"] == "bytes-utf16":
-        return out  # text decoding refuses UTF-16 descriptors; nothing to compare
     if err:
         out.fail(err.sig("benign|" + tag), f"document without entity declarations was refused: {err.describe()}")
         return out
